@@ -307,6 +307,9 @@ class Mirror(object):
                 return T(tm.call(fn, (x.a[0],) + args[1:], kw))
             if x.op == "P":
                 return P(x.a[0], tm.call(fn, (x.a[1],) + args[1:], kw))
+        if name == "builtins.len" and len(args) == 1 and isT(x):
+            # len(T(x)) is T(x).shape[0], i.e. x.shape[1]
+            return tm.sub(tm.attr(x.a[0], "shape"), tm.const(1.0))
         if name == "builtins.len" and self.equal_counts and len(args) == 1 and self.roles(x) == {"E"}:
             # frame-label sequences of both sides have equal length (validate_structure: common end time)
             back = Mirror(self.func, equal_counts=False).swap(x)
@@ -325,7 +328,7 @@ class Mirror(object):
     def b_sub(self, base, idx):
         # T(x).shape[k] -> x.shape[1-k]
         if base.op == "attr" and base.a[1] == "shape" and isT(base.a[0]) and idx.op == "const" and idx.a[0] in (0.0, 1.0):
-            return tm.sub(tm.attr(base.a[0].a[0], "shape"), tm.const(1.0 - idx.a[0]))
+            return tm.sub(tm.attr(base.a[0].a[0], "shape"), tm.const(1.0 - idx.a[0]))  # (tm.sub spells x.shape[0] as len(x))
         # Boolean-mask gather of a transposed matrix by the transposed mask: a permutation of the plain gather
         if isT(base) and isT(idx):
             return P(idx.a[0], tm.sub(base.a[0], idx.a[0]))
